@@ -129,8 +129,10 @@ class CompiledSimulation(object):
         # Passing the dictionary objects themselves since they aren't updated anywhere.
         # If that's ever not the case, will need to pass in deep copies of them like done
         # for the normal Simulation so we retain the initial values that had.
-        # (memories keyed by id, which is how output_verilog_testbench looks them up)
-        self.tracer._set_initial_values(default_value, self._regmap,
+        # (memories keyed by id, which is how output_verilog_testbench looks them up; the default
+        # recorded is 0 because default_value is not applied to memories here and every register
+        # already has its own entry)
+        self.tracer._set_initial_values(0, self._regmap,
                                         {mem.id: mem_map for (mem, mem_map) in self._memmap.items()})
 
         self._create_dll()
